@@ -270,7 +270,7 @@ def sequence(mon, rng, kind):
                 shadow.clear()
                 ops.append(("clear",))
             else:
-                N = int(rng.choice([1, 1, 2, 3, 5, 7, 30]))
+                N = int(rng.choice([1, 1, 2, 3, 5, 7, 30, 30, 700 if rng.random() < 0.15 else 3]))
                 Xte = rng.random((N, d)) if rng.random() < 0.8 else pool[rng.integers(len(pool), size=N)]
                 if shadow.n_pending() != shadow.n_active():
                     mon.count("stale_predicts")
@@ -299,6 +299,7 @@ def laws(mon, rng, kind):
     def build(order, batches):
         mod = make_model(kind, d, m, noise)
         first = True
+        mod._vmon_early_report = None
         for chunk in np.array_split(order, batches):
             if len(chunk) == 0:
                 continue
@@ -309,6 +310,10 @@ def laws(mon, rng, kind):
                 mod.add_sample(X[chunk], Y[chunk])
             if first:
                 mod.update()
+                try:
+                    mod._vmon_early_report = mod.get_lengthscale_and_var()  # read once BEFORE the hyper-parameters change
+                except Exception:
+                    pass
                 apply_hypers(mod, kind, h)
                 first = False
         mod.update()
